@@ -7,7 +7,7 @@
    participations of the books in the order-book settlement queue. *)
 From Coq Require Import ZArith Bool List Lia.
 From Sge Require Import Lib.Dec Model.Types Model.Orderbook Model.Mint Model.Chain Proofs.Tactics Proofs.Supply Proofs.CustodyLocal Proofs.Custody
-     Proofs.BookFacts Proofs.Mono Proofs.Local Proofs.BetIndex Proofs.Settle Proofs.SubLock Proofs.SubHist Proofs.NoAbort.
+     Proofs.BookFacts Proofs.Mono Proofs.Params Proofs.Local Proofs.BetIndex Proofs.Settle Proofs.SubLock Proofs.SubHist Proofs.NoAbort.
 Import ListNotations.
 Open Scope Z_scope.
 
@@ -492,3 +492,416 @@ Proof.
   - eapply sub_house_deposit_qf; exact H.
   - eapply sub_house_withdraw_qf; exact H.
 Qed.
+
+(* =================================================================================================================================== *)
+(* Part 3: over every history                                                                                                          *)
+(* =================================================================================================================================== *)
+Lemma ob_endblock_pend fuel : forall s n i s', ob_endblock fuel s n i = Some s' ->
+  c_mqueue s' = c_mqueue s /\ forall m, pend_of s' m = pend_of s m.
+Proof.
+  induction fuel as [|f IH]; intros s n i s' H; cbn [ob_endblock] in H.
+  - destruct (n <=? 0); [inv H; split; reflexivity|discriminate].
+  - destruct (n <=? 0); [inv H; split; reflexivity|].
+    destruct (nth_error (c_bqueue s) i) as [m0|]; [|inv H; split; reflexivity].
+    destruct (get_ms s m0) as [x|] eqn:Hg; [|discriminate].
+    destruct (negb (bk_status (ms_book x) =? BK_RESOLVED)); [discriminate|].
+    destruct (batch_parts _ _ _ _ _) as [[[[alls cnt] ps] effs]|]; [|discriminate].
+    destruct (apply_effects (c_bank s) (c_subs s) effs) as [[bk1 subs1]|]; [|discriminate].
+    destruct (IH _ _ _ _ H) as [I1 I2]. split; [rewrite I1; reflexivity|].
+    intros m. rewrite I2. unfold pend_of. destruct (Z.eq_dec m m0) as [->|Hne].
+    + erewrite get_ms_set_same by reflexivity. rewrite Hg. reflexivity.
+    + erewrite get_ms_set_other by (try reflexivity; exact Hne). reflexivity.
+Qed.
+
+Lemma bet_endblock_bq fuel : forall s n s', bet_endblock fuel s n = Some s' -> exists q1, c_bqueue s' = c_bqueue s ++ q1.
+Proof.
+  induction fuel as [|f IH]; intros s n s' H; cbn [bet_endblock] in H.
+  - destruct (n <=? 0); [inv H; exists []; rewrite app_nil_r; reflexivity|discriminate].
+  - destruct (n <=? 0); [inv H; exists []; rewrite app_nil_r; reflexivity|].
+    destruct (c_mqueue s) as [|m0 q] eqn:EQ; [inv H; exists []; rewrite app_nil_r; reflexivity|].
+    destruct (get_ms s m0) as [x|]; [|discriminate].
+    destruct (settle_bets _ x (c_bank s) (c_subs s) (c_height s) (c_settledix s) 0) as [[[[[x1 bk1] subs1] sidx1] cnt]|]; [|discriminate].
+    destruct (ms_pending x1).
+    + destruct (negb (bk_status (ms_book x1) =? BK_ACTIVE)); [discriminate|].
+      destruct (IH _ _ _ H) as (q1 & E). exists ([m0] ++ q1). rewrite E. cbn [c_bqueue chain_upd]. rewrite <- app_assoc. reflexivity.
+    + destruct (IH _ _ _ H) as (q1 & E). exists q1. rewrite E. reflexivity.
+Qed.
+
+Fixpoint count_end (ops : list op) : Z :=
+  match ops with [] => 0 | OEnd :: r => 1 + count_end r | _ :: r => count_end r end.
+Lemma count_end_app a b : count_end (a ++ b) = count_end a + count_end b.
+Proof. induction a as [|o r IH]; cbn [app count_end]; [lia|]. destruct o; lia. Qed.
+Lemma count_end_nonneg a : 0 <= count_end a.
+Proof. induction a as [|o r IH]; cbn [count_end]; [lia|]. destruct o; lia. Qed.
+
+(* the book of market m has left the active stage (all its bets are settled) / is settled *)
+Definition book_at_least (st : Z) (s : chain) (m : Z) : Prop := exists x, get_ms s m = Some x /\ st <= bk_status (ms_book x).
+
+Lemma book_at_least_step st s o m : inv s -> book_at_least st s m -> book_at_least st (fst (step s o)) m.
+Proof.
+  intros Hinv (x & Hx & Hs). destruct (step_cmono s o Hinv m x Hx) as (x' & Hx' & M). exists x'. split; [exact Hx'|]. pose proof (mo_book _ _ M). lia.
+Qed.
+
+Lemma op_eq_end (o : op) : o = OEnd \/ o <> OEnd.
+Proof. destruct o; try (right; discriminate). left. reflexivity. Qed.
+
+Lemma status_res_resolvedb x : status_res (k_status (ms_mkt x)) -> resolvedb x = true.
+Proof. unfold resolvedb. intros [E|[E|E]]; rewrite E; reflexivity. Qed.
+
+Section Hist.
+Variables (P : params) (bk : bank) (supply : Z) (vault : list Z) (MP : mparams) (t0 : Z) (sw sd : bool).
+Hypothesis HP : pr_bet_fee P <= pr_bet_min P.
+Hypothesis HF : 0 <= pr_bet_fee P.
+Hypothesis B1 : bget bk POOL = 0.
+Hypothesis B2 : bget bk HOUSEFEE = 0.
+Hypothesis B3 : bget bk BETFEE = 0.
+Hypothesis Hb : forall a, SUBBASE <= a -> 0 <= bget bk a.
+Hypothesis HM : mparams_valid MP = true.
+
+Let s0 := init bk supply P vault MP t0 sw sd.
+
+Lemma reach_g2 ops : Forall user_op ops -> g2 (run s0 ops).
+Proof. apply g2_reachable; assumption. Qed.
+Lemma reach_prm ops : c_prm (run s0 ops) = P.
+Proof. destruct (run_cfg ops s0) as (E & _). rewrite E. reflexivity. Qed.
+Lemma reach_live ops : Forall user_op ops -> c_halted (run s0 ops) = false.
+Proof. apply no_abort; assumption. Qed.
+
+Lemma g2_qok s : g2 s -> qok s.
+Proof.
+  intros G. pose proof (g_inv _ (g2_g1 _ G)) as I. split; [apply (i_mq_nodup _ I)|].
+  intros m Hm. destruct (i_mq _ I m Hm) as (x & Hg & _). exists x. split; [exact Hg|]. apply (g1_pending s m x (g2_g1 _ G) Hg).
+Qed.
+
+(* the two halves of an end block on a reachable state *)
+Lemma end_block_split s : g2 s -> c_halted s = false ->
+  exists s1 s2, bet_endblock (S (length (c_mqueue s) + total_pending s)) s (pr_bet_batch (c_prm s)) = Some s1 /\ g2 s1 /\
+    ob_endblock (S (length (c_bqueue s1))) s1 (pr_ob_batch (c_prm s1)) 0 = Some s2 /\
+    fst (step s OEnd) = ovm_endblock s2.
+Proof.
+  intros G Hh.
+  destruct (bet_endblock_ok P HP HF (S (length (c_mqueue s) + total_pending s)) s (pr_bet_batch (c_prm s)) (g2_g1 _ G) ltac:(lia)) as (s1 & E1 & G1).
+  assert (G2 : g2 s1) by (constructor; [exact G1|eapply bet_endblock_sinv; [exact E1|apply (g2_sinv _ G)]|eapply bet_endblock_xinv; [exact E1|apply (g2_xinv _ G)]]).
+  destruct (ob_endblock_ok P HP HF (S (length (c_bqueue s1))) s1 (pr_ob_batch (c_prm s1)) O G2 ltac:(lia)) as (s2 & E2 & _).
+  exists s1, s2. split; [exact E1|]. split; [exact G2|]. split; [exact E2|].
+  unfold step. rewrite Hh. unfold end_block. rewrite E1, E2. reflexivity.
+Qed.
+
+Lemma ovm_endblock_ms s : c_ms (ovm_endblock s) = c_ms s /\ c_mqueue (ovm_endblock s) = c_mqueue s /\ c_bqueue (ovm_endblock s) = c_bqueue s.
+Proof. unfold ovm_endblock. destruct (ovm_finish _ _ _ _). repeat split. Qed.
+
+Lemma pend_of_ext s s' : c_ms s' = c_ms s -> forall m, pend_of s' m = pend_of s m.
+Proof. intros E m. unfold pend_of. rewrite (get_ms_ext s s' m E). reflexivity. Qed.
+Lemma unpaid_of_ext s s' : c_ms s' = c_ms s -> forall m, unpaid_of s' m = unpaid_of s m.
+Proof. intros E m. unfold unpaid_of. rewrite (get_ms_ext s s' m E). reflexivity. Qed.
+
+(* ---- phase 1: the bets ------------------------------------------------------------------------------------------------------------- *)
+Definition bets_measure (s : chain) (m : Z) : Z := ahead (pend_of s) (c_mqueue s) m.
+
+Lemma step_bets s o m : g2 s -> c_halted s = false -> c_prm s = P -> 0 <= pr_bet_batch P -> In m (c_mqueue s) ->
+  let s' := fst (step s o) in
+  book_at_least BK_RESOLVED s' m \/
+  (In m (c_mqueue s') /\ bets_measure s' m = bets_measure s m - (match o with OEnd => pr_bet_batch P | _ => 0 end)).
+Proof.
+  intros G Hh HPm Hk Hm. cbv zeta. pose proof (g_inv _ (g2_g1 _ G)) as I.
+  destruct (op_eq_end o) as [->|Hne].
+  - destruct (end_block_split s G Hh) as (s1 & s2 & E1 & G2 & E2 & Es). rewrite Es. rewrite HPm in E1.
+    destruct (bet_endblock_ahead _ _ _ _ E1 (g2_qok s G) Hk) as (_ & _ & A). destruct (A m Hm) as [_ [Mv|[Hin Ha]]].
+    + left. destruct Mv as [Hb1 _]. destruct (x_bq _ (g2_xinv _ G2) m Hb1) as (x1 & Hx1 & Hs1).
+      destruct (ob_endblock_cmono _ _ _ _ _ E2 (g_inv _ (g2_g1 _ G2)) m x1 Hx1) as (x2 & Hx2 & M).
+      exists x2. split; [rewrite (get_ms_ext s2 (ovm_endblock s2) m (proj1 (ovm_endblock_ms s2))); exact Hx2|]. pose proof (mo_book _ _ M). lia.
+    + right. destruct (ob_endblock_pend _ _ _ _ _ E2) as [Q2 P2]. destruct (ovm_endblock_ms s2) as (O1 & O2 & _).
+      unfold bets_measure. rewrite O2, Q2. split; [exact Hin|].
+      rewrite (ahead_ext (pend_of (ovm_endblock s2)) (pend_of s1) (c_mqueue s1) m); [exact Ha|].
+      intros h _. rewrite (pend_of_ext s2 (ovm_endblock s2) O1). apply P2.
+  - right. destruct (step_qframe s o Hne) as [[new Q] _ R _]. unfold bets_measure. rewrite Q. split; [apply in_or_app; left; exact Hm|].
+    rewrite (ahead_app_in _ _ _ _ Hm). replace (match o with OEnd => pr_bet_batch P | _ => 0 end) with 0 by (destruct o; try reflexivity; contradiction). rewrite Z.sub_0_r.
+    apply ahead_ext. intros h Hh'. destruct (i_mq _ I h Hh') as (x & Hx & Hres & _).
+    assert (Rb : resolvedb x = true) by (apply status_res_resolvedb; exact Hres).
+    destruct (R h x Hx Rb) as (x' & Hx' & _ & W). unfold pend_of. rewrite Hx, Hx'. unfold wproj in W. injection W as W _ _. rewrite W. reflexivity.
+Qed.
+
+Lemma run_app s a b : run s (a ++ b) = run (run s a) b.
+Proof. unfold run. apply fold_left_app. Qed.
+
+Theorem bets_phase ops1 m : Forall user_op ops1 -> In m (c_mqueue (run s0 ops1)) -> 0 <= pr_bet_batch P ->
+  forall ops2, Forall user_op ops2 ->
+  book_at_least BK_RESOLVED (run s0 (ops1 ++ ops2)) m \/
+  (In m (c_mqueue (run s0 (ops1 ++ ops2))) /\
+   bets_measure (run s0 (ops1 ++ ops2)) m + pr_bet_batch P * count_end ops2 = bets_measure (run s0 ops1) m).
+Proof.
+  intros H1 Hm Hk ops2. induction ops2 as [|o pre IH] using rev_ind; intros H2.
+  - right. rewrite app_nil_r. split; [exact Hm|cbn [count_end]; lia].
+  - apply Forall_app in H2. destruct H2 as [H2 Ho]. specialize (IH H2).
+    assert (Hall : Forall user_op (ops1 ++ pre)) by (apply Forall_app; split; assumption).
+    rewrite app_assoc, run_snoc. set (s := run s0 (ops1 ++ pre)) in *.
+    pose proof (reach_g2 _ Hall) as G. fold s in G.
+    destruct IH as [L|[Hin Hmeas]].
+    + left. apply book_at_least_step; [apply (g_inv _ (g2_g1 _ G))|exact L].
+    + destruct (step_bets s o m G (reach_live _ Hall) (reach_prm _) Hk Hin) as [L|[Hin' Hm']]; [left; exact L|right].
+      split; [exact Hin'|]. rewrite Hm', count_end_app. cbn [count_end]. destruct o; cbn [count_end]; lia.
+Qed.
+
+(* a market queued for bet settlement with `a` pending bets queued up to and including its own has left that stage -- all its bets
+   settled, its book handed to the order-book settlement queue -- after a / batch + 1 end blocks, whatever else happens *)
+Theorem bets_settled_within ops1 ops2 m : Forall user_op ops1 -> Forall user_op ops2 ->
+  In m (c_mqueue (run s0 ops1)) -> 0 < pr_bet_batch P ->
+  bets_measure (run s0 ops1) m / pr_bet_batch P + 1 <= count_end ops2 ->
+  book_at_least BK_RESOLVED (run s0 (ops1 ++ ops2)) m.
+Proof.
+  intros H1 H2 Hm Hk Hc. destruct (bets_phase ops1 m H1 Hm ltac:(lia) ops2 H2) as [L|[Hin E]]; [exact L|exfalso].
+  set (a := bets_measure (run s0 ops1) m) in *. set (k := pr_bet_batch P) in *.
+  assert (0 <= bets_measure (run s0 (ops1 ++ ops2)) m) by (apply ahead_nonneg; intros; apply pend_of_nonneg).
+  pose proof (Z.div_mod a k ltac:(lia)) as Hd. pose proof (Z.mod_pos_bound a k Hk) as Hb'.
+  assert (k * (a / k + 1) <= k * count_end ops2) by (apply Z.mul_le_mono_nonneg_l; lia). lia.
+Qed.
+
+(* ---- phase 2: the participations -------------------------------------------------------------------------------------------------------- *)
+Definition parts_measure (s : chain) (m : Z) : Z := ahead (unpaid_of s) (c_bqueue s) m.
+
+Lemma step_parts s o m : g2 s -> c_halted s = false -> c_prm s = P -> 0 <= pr_ob_batch P -> In m (c_bqueue s) ->
+  let s' := fst (step s o) in
+  book_at_least BK_SETTLED s' m \/
+  (In m (c_bqueue s') /\ parts_measure s' m = parts_measure s m - (match o with OEnd => pr_ob_batch P | _ => 0 end)).
+Proof.
+  intros G Hh HPm Hk Hm. cbv zeta. pose proof (g_inv _ (g2_g1 _ G)) as I.
+  destruct (op_eq_end o) as [->|Hne].
+  - destruct (end_block_split s G Hh) as (s1 & s2 & E1 & G2 & E2 & Es). rewrite Es.
+    destruct (bet_endblock_bq _ _ _ _ E1) as (q1 & Eq1). destruct (bet_endblock_queues _ _ _ _ E1) as [_ Eu1].
+    assert (Hm1 : In m (c_bqueue s1)) by (rewrite Eq1; apply in_or_app; left; exact Hm).
+    assert (Ea1 : ahead (unpaid_of s1) (c_bqueue s1) m = parts_measure s m).
+    { rewrite Eq1, (ahead_app_in _ _ _ _ Hm). apply ahead_ext. intros h _. apply Eu1. }
+    rewrite (bet_endblock_prm _ _ _ _ E1), HPm in E2.
+    destruct (ob_endblock_ahead _ _ _ _ E2 (x_bq_nd _ (g2_xinv _ G2)) Hk) as (_ & _ & _ & _ & A). destruct (A m Hm1) as [_ [Pd|[Hin Ha]]].
+    + left. destruct Pd as (_ & x & Hx & Hs & _). exists x. split; [rewrite (get_ms_ext s2 (ovm_endblock s2) m (proj1 (ovm_endblock_ms s2))); exact Hx|rewrite Hs; lia].
+    + right. destruct (ovm_endblock_ms s2) as (O1 & _ & O3). unfold parts_measure at 1. rewrite O3. split; [exact Hin|].
+      rewrite (ahead_ext (unpaid_of (ovm_endblock s2)) (unpaid_of s2) (c_bqueue s2) m) by (intros h _; apply (unpaid_of_ext s2 (ovm_endblock s2) O1)).
+      rewrite Ha, Ea1. reflexivity.
+  - right. destruct (step_qframe s o Hne) as [_ Q R _]. unfold parts_measure. rewrite Q. split; [exact Hm|].
+    replace (match o with OEnd => pr_ob_batch P | _ => 0 end) with 0 by (destruct o; try reflexivity; contradiction). rewrite Z.sub_0_r.
+    apply ahead_ext. intros h Hh'. destruct (x_bq _ (g2_xinv _ G) h Hh') as (x & Hx & Hst).
+    pose proof (g_all _ (g2_g1 _ G) _ (get_ms_in _ _ _ Hx)) as Sx. cbn [snd] in Sx.
+    assert (Hna : bk_status (ms_book x) <> BK_ACTIVE) by (rewrite Hst; discriminate).
+    assert (Rb : resolvedb x = true) by (apply status_res_resolvedb; apply (se_done _ Sx Hna)).
+    destruct (R h x Hx Rb) as (x' & Hx' & _ & W). unfold unpaid_of. rewrite Hx, Hx'. unfold wproj in W. injection W as _ W _. apply unpaid_flags. exact W.
+Qed.
+
+Theorem parts_phase ops1 m : Forall user_op ops1 -> In m (c_bqueue (run s0 ops1)) -> 0 <= pr_ob_batch P ->
+  forall ops2, Forall user_op ops2 ->
+  book_at_least BK_SETTLED (run s0 (ops1 ++ ops2)) m \/
+  (In m (c_bqueue (run s0 (ops1 ++ ops2))) /\
+   parts_measure (run s0 (ops1 ++ ops2)) m + pr_ob_batch P * count_end ops2 = parts_measure (run s0 ops1) m).
+Proof.
+  intros H1 Hm Hk ops2. induction ops2 as [|o pre IH] using rev_ind; intros H2.
+  - right. rewrite app_nil_r. split; [exact Hm|cbn [count_end]; lia].
+  - apply Forall_app in H2. destruct H2 as [H2 Ho]. specialize (IH H2).
+    assert (Hall : Forall user_op (ops1 ++ pre)) by (apply Forall_app; split; assumption).
+    rewrite app_assoc, run_snoc. set (s := run s0 (ops1 ++ pre)) in *.
+    pose proof (reach_g2 _ Hall) as G. fold s in G.
+    destruct IH as [L|[Hin Hmeas]].
+    + left. apply book_at_least_step; [apply (g_inv _ (g2_g1 _ G))|exact L].
+    + destruct (step_parts s o m G (reach_live _ Hall) (reach_prm _) Hk Hin) as [L|[Hin' Hm']]; [left; exact L|right].
+      split; [exact Hin'|]. rewrite Hm', count_end_app. cbn [count_end]. destruct o; cbn [count_end]; lia.
+Qed.
+
+(* a book queued for payment with `a` unpaid participations queued up to and including its own is settled -- every participation
+   paid, the book marked settled and out of the queue -- after a / batch + 1 end blocks, whatever else happens *)
+Theorem parts_settled_within ops1 ops2 m : Forall user_op ops1 -> Forall user_op ops2 ->
+  In m (c_bqueue (run s0 ops1)) -> 0 < pr_ob_batch P ->
+  parts_measure (run s0 ops1) m / pr_ob_batch P + 1 <= count_end ops2 ->
+  book_at_least BK_SETTLED (run s0 (ops1 ++ ops2)) m.
+Proof.
+  intros H1 H2 Hm Hk Hc. destruct (parts_phase ops1 m H1 Hm ltac:(lia) ops2 H2) as [L|[Hin E]]; [exact L|exfalso].
+  set (a := parts_measure (run s0 ops1) m) in *. set (k := pr_ob_batch P) in *.
+  assert (0 <= parts_measure (run s0 (ops1 ++ ops2)) m) by (apply ahead_nonneg; intros; apply unpaid_of_nonneg).
+  pose proof (Z.div_mod a k ltac:(lia)) as Hd. pose proof (Z.mod_pos_bound a k Hk) as Hb'.
+  assert (k * (a / k + 1) <= k * count_end ops2) by (apply Z.mul_le_mono_nonneg_l; lia). lia.
+Qed.
+End Hist.
+
+(* =================================================================================================================================== *)
+(* Part 4: the book status is one of active / resolved / settled, and a settled book has no unpaid participation                        *)
+(* =================================================================================================================================== *)
+Lemma batch_parts_alls ps : forall st cr limit cnt c ps' effs,
+  batch_parts ps st cr limit cnt = Some (true, c, ps', effs) -> unsettled_cnt ps' = 0.
+Proof.
+  induction ps as [|p rest IH]; intros st cr limit cnt c ps' effs H; cbn [batch_parts] in H.
+  - inv H. reflexivity.
+  - assert (K : forall p' e0 cnt', p_settled p' = true ->
+      (if limit <=? cnt' then Some (match rest with [] => true | _ :: _ => false end, cnt', p' :: rest, e0)
+       else match batch_parts rest st cr limit cnt' with None => None | Some (alls, c0, ps0, effs') => Some (alls, c0, p' :: ps0, e0 ++ effs') end)
+      = Some (true, c, ps', effs) -> unsettled_cnt ps' = 0).
+    { intros p' e0 cnt' Hs' HK. destruct (limit <=? cnt').
+      - destruct rest; [|discriminate]. inv HK. unfold unsettled_cnt. cbn [filter]. rewrite Hs'. reflexivity.
+      - destruct (batch_parts rest st cr limit cnt') as [[[[a1 c1] ps1] e1]|] eqn:EB; [|discriminate]. inv HK.
+        unfold unsettled_cnt. cbn [filter]. rewrite Hs'. cbn [negb]. apply (IH _ _ _ _ _ _ _ EB). }
+    destruct (p_settled p) eqn:Ep; [apply (K p [] cnt Ep H)|].
+    destruct (settle_participation p st cr) as [[p' e0]|] eqn:ESP; [|discriminate].
+    destruct (settle_participation_marks _ _ _ _ _ ESP) as (_ & Hs' & _). apply (K p' e0 (cnt + 1) Hs' H).
+Qed.
+
+Record i3 (x : mstate) : Prop := {
+  i3_range : BK_ACTIVE <= bk_status (ms_book x) <= BK_SETTLED;
+  i3_paid : bk_status (ms_book x) = BK_SETTLED -> unpaid x = 0 }.
+
+Lemma i3_same x x' : bk_status (ms_book x') = bk_status (ms_book x) -> pflags x' = pflags x -> i3 x -> i3 x'.
+Proof. intros E F [R Pd]. constructor; [rewrite E; exact R|rewrite E, (unpaid_flags _ _ F); exact Pd]. Qed.
+
+Lemma i3_active x : bk_status (ms_book x) = BK_ACTIVE -> i3 x.
+Proof. intros E. constructor; rewrite E; [unfold BK_ACTIVE, BK_SETTLED; lia|discriminate]. Qed.
+
+Lemma i3_step P x x' : msett x -> i3 x -> mtrans P x x' -> i3 x'.
+Proof.
+  intros S I T. destruct T.
+  - eapply i3_same; [| |exact I]; reflexivity.
+  - eapply i3_same; [| |exact I]; reflexivity.
+  - apply i3_active. cbn [ms_book mstate_upd].
+    match goal with E : init_participation _ _ _ _ _ = Some _ |- _ => rewrite (proj1 (proj2 (init_participation_lock _ _ _ _ _ _ _ _ 0 E))) end.
+    apply (se_ai _ S). left. assumption.
+  - match goal with E : withdraw_participation _ _ _ = Some _ |- _ => destruct (withdraw_participation_flags _ _ _ _ _ E) as [F St] end.
+    eapply i3_same; [| |exact I]; [exact St|exact F].
+  - apply i3_active. cbn [ms_book mstate_upd].
+    match goal with E : process_wager _ _ _ _ _ _ = Some _ |- _ => rewrite (process_wager_status _ _ _ _ _ _ _ _ _ E) end.
+    apply (se_ai _ S). left. assumption.
+  - apply i3_active. match goal with E : settle_bet _ _ _ = Some _ |- _ => rewrite (settle_bet_status _ _ _ _ _ E) end. assumption.
+  - constructor; cbn [ms_book with_book mstate_upd set_status bk_status book_upd]; [unfold BK_ACTIVE, BK_RESOLVED, BK_SETTLED; lia|discriminate].
+  - destruct alls.
+    + constructor; cbn [ms_book with_book mstate_upd bk_status book_upd]; [unfold BK_ACTIVE, BK_SETTLED; lia|].
+      intros _. unfold unpaid. cbn [ms_book with_book mstate_upd bk_parts book_upd].
+      match goal with E : batch_parts _ _ _ _ _ = Some _ |- _ => exact (batch_parts_alls _ _ _ _ _ _ _ _ E) end.
+    + constructor; cbn [ms_book with_book mstate_upd bk_status book_upd]; [apply (i3_range _ I)|].
+      match goal with E : bk_status (ms_book _) = BK_RESOLVED |- _ => rewrite E end. discriminate.
+Qed.
+
+Lemma i3_fresh mk : i3 (fresh_ms mk).
+Proof. apply i3_active. reflexivity. Qed.
+
+Theorem i3_over_histories P bk supply vault MP t0 sw sd ops :
+  pr_bet_fee P <= pr_bet_min P -> 0 <= pr_bet_fee P ->
+  bget bk POOL = 0 -> bget bk HOUSEFEE = 0 -> bget bk BETFEE = 0 -> Forall valid_op ops ->
+  forall m x, get_ms (run (init bk supply P vault MP t0 sw sd) ops) m = Some x -> i3 x.
+Proof.
+  intros HP HF H1 H2 H3 Hv m x Hg.
+  assert (K : msett x /\ i3 x).
+  { apply (local_invariant P (fun y => msett y /\ i3 y)) with (bk := bk) (supply := supply) (vault := vault) (MP := MP) (t0 := t0) (sw := sw) (sd := sd) (ops := ops) (m := m); try assumption.
+    - intros mk Hmk. split; [apply msett_fresh; exact Hmk|apply i3_fresh].
+    - intros y y' [Sy Iy] T. split; [eapply (msett_step P); eassumption|eapply i3_step; eassumption]. }
+  exact (proj2 K).
+Qed.
+
+(* =================================================================================================================================== *)
+(* Part 5: what the two stages mean for the market, and the drained chain (C01)                                                          *)
+(* =================================================================================================================================== *)
+Lemma unpaid_zero_all x : unpaid x = 0 -> forall p, In p (bk_parts (ms_book x)) -> p_settled p = true.
+Proof.
+  unfold unpaid, zlen. intros H p Hp. destruct (p_settled p) eqn:E; [reflexivity|exfalso].
+  assert (Hin : In p (filter (fun q => negb (p_settled q)) (bk_parts (ms_book x)))) by (apply filter_In; split; [exact Hp|rewrite E; reflexivity]).
+  destruct (filter _ _); [destruct Hin|cbn [length] in H; lia].
+Qed.
+
+Lemma zsum_map_zero {A} (f : A -> Z) l : (forall a, In a l -> f a = 0) -> zsum (map f l) = 0.
+Proof. induction l as [|a r IH]; intros H; cbn [map zsum]; [reflexivity|]. rewrite (H a (or_introl eq_refl)), IH; [reflexivity|]. intros b Hb. apply H. right. exact Hb. Qed.
+
+Lemma settled_owes_nothing x : unpaid x = 0 -> (forall b, In b (ms_bets x) -> is_settled b = true) ->
+  owed_pool x = 0 /\ owed_hfee x = 0 /\ owed_bfee x = 0.
+Proof.
+  intros Hu Hb. pose proof (unpaid_zero_all x Hu) as Hp. unfold owed_pool, owed_hfee, owed_bfee, open_amt, open_fee. rewrite pool_parts_eq, fee_parts_eq.
+  rewrite (zsum_map_zero part_pool) by (intros p Hpi; unfold part_pool; rewrite (Hp p Hpi); reflexivity).
+  rewrite (zsum_map_zero part_fee) by (intros p Hpi; unfold part_fee; rewrite (Hp p Hpi); reflexivity).
+  rewrite (zsum_map_zero bet_open_amt) by (intros b Hbi; unfold bet_open_amt; pose proof (Hb b Hbi) as E; unfold is_settled in E; rewrite E; reflexivity).
+  rewrite (zsum_map_zero bet_open_fee) by (intros b Hbi; unfold bet_open_fee; pose proof (Hb b Hbi) as E; unfold is_settled in E; rewrite E; reflexivity).
+  repeat split; reflexivity.
+Qed.
+
+Section Final.
+Variables (P : params) (bk : bank) (supply : Z) (vault : list Z) (MP : mparams) (t0 : Z) (sw sd : bool).
+Hypothesis HP : pr_bet_fee P <= pr_bet_min P.
+Hypothesis HF : 0 <= pr_bet_fee P.
+Hypothesis B1 : bget bk POOL = 0.
+Hypothesis B2 : bget bk HOUSEFEE = 0.
+Hypothesis B3 : bget bk BETFEE = 0.
+Hypothesis Hb : forall a, SUBBASE <= a -> 0 <= bget bk a.
+Hypothesis HM : mparams_valid MP = true.
+
+Let s0 := init bk supply P vault MP t0 sw sd.
+
+Lemma user_valid_all ops : Forall user_op ops -> Forall valid_op ops.
+Proof. intros Hv. eapply Forall_impl; [|exact Hv]. intros a Ha. apply user_valid. exact Ha. Qed.
+
+(* the book of m is resolved or settled: every bet of m is settled, nothing is pending, m has left the bet-settlement queue *)
+Lemma resolved_means ops m : Forall user_op ops -> book_at_least BK_RESOLVED (run s0 ops) m ->
+  exists x, get_ms (run s0 ops) m = Some x /\ ms_pending x = [] /\ (forall b, In b (ms_bets x) -> b_status b = BS_SETTLED) /\
+    ~ In m (c_mqueue (run s0 ops)) /\ (bk_status (ms_book x) = BK_RESOLVED \/ bk_status (ms_book x) = BK_SETTLED).
+Proof.
+  intros Hv (x & Hx & Hs). exists x. split; [exact Hx|].
+  pose proof (reach_g2 P bk supply vault MP t0 sw sd HP HF B1 B2 B3 Hb ops Hv) as G. fold s0 in G.
+  pose proof (get_ms_in _ _ _ Hx) as Hin. pose proof (g_all _ (g2_g1 _ G) _ Hin) as S. cbn [snd] in S.
+  assert (Hna : bk_status (ms_book x) <> BK_ACTIVE) by (unfold BK_ACTIVE, BK_RESOLVED in *; lia).
+  split; [apply (se_done _ S Hna)|].
+  split; [intros b Hbi; pose proof (g1_closed _ _ (g2_g1 _ G) Hin Hna b Hbi) as E; unfold is_settled in E; apply Z.eqb_eq in E; exact E|].
+  split; [intros Hq; destruct (i_mq _ (g_inv _ (g2_g1 _ G)) m Hq) as (y & Hy & _ & Hact); rewrite Hx in Hy; inv Hy; contradiction|].
+  pose proof (i3_range _ (i3_over_histories P bk supply vault MP t0 sw sd ops HP HF B1 B2 B3 (user_valid_all ops Hv) m x Hx)) as R.
+  unfold BK_ACTIVE, BK_RESOLVED, BK_SETTLED in *. lia.
+Qed.
+
+(* the book of m is settled: every participation paid, every bet settled, m in neither queue, nothing left in custody for m *)
+Lemma settled_means ops m : Forall user_op ops -> book_at_least BK_SETTLED (run s0 ops) m ->
+  exists x, get_ms (run s0 ops) m = Some x /\ bk_status (ms_book x) = BK_SETTLED /\
+    (forall p, In p (bk_parts (ms_book x)) -> p_settled p = true) /\
+    ms_pending x = [] /\ (forall b, In b (ms_bets x) -> b_status b = BS_SETTLED) /\
+    ~ In m (c_mqueue (run s0 ops)) /\ ~ In m (c_bqueue (run s0 ops)) /\
+    owed_pool x = 0 /\ owed_hfee x = 0 /\ owed_bfee x = 0.
+Proof.
+  intros Hv Hs. destruct Hs as (x & Hx & Hs).
+  destruct (resolved_means ops m Hv) as (y & Hy & Hp & Hbs & Hnq & _); [exists x; split; [exact Hx|unfold BK_RESOLVED, BK_SETTLED in *; lia]|].
+  rewrite Hx in Hy. inv Hy. exists y. split; [exact Hx|].
+  pose proof (i3_over_histories P bk supply vault MP t0 sw sd ops HP HF B1 B2 B3 (user_valid_all ops Hv) m y Hx) as [R Pd].
+  assert (Est : bk_status (ms_book y) = BK_SETTLED) by (unfold BK_SETTLED in *; lia).
+  pose proof (reach_g2 P bk supply vault MP t0 sw sd HP HF B1 B2 B3 Hb ops Hv) as G. fold s0 in G.
+  split; [exact Est|]. split; [apply unpaid_zero_all; apply Pd; exact Est|]. split; [exact Hp|]. split; [exact Hbs|]. split; [exact Hnq|].
+  split; [intros Hq; destruct (x_bq _ (g2_xinv _ G) m Hq) as (z & Hz & Hr); rewrite Hx in Hz; inv Hz; rewrite Est in Hr; discriminate|].
+  apply settled_owes_nothing; [apply Pd; exact Est|]. intros b Hbi. unfold is_settled. rewrite (Hbs b Hbi). reflexivity.
+Qed.
+
+(* C01, last clause: once the book of every market is settled, the three custody accounts are empty *)
+Theorem drained ops : Forall user_op ops ->
+  (forall m x, get_ms (run s0 ops) m = Some x -> bk_status (ms_book x) = BK_SETTLED) ->
+  bget (c_bank (run s0 ops)) POOL = 0 /\ bget (c_bank (run s0 ops)) HOUSEFEE = 0 /\ bget (c_bank (run s0 ops)) BETFEE = 0.
+Proof.
+  intros Hv Hall. pose proof (reach_g2 P bk supply vault MP t0 sw sd HP HF B1 B2 B3 Hb ops Hv) as G. fold s0 in G.
+  destruct (i_cust _ (g_inv _ (g2_g1 _ G))) as (C1 & C2 & C3).
+  assert (K : forall e, In e (c_ms (run s0 ops)) -> owed_pool (snd e) = 0 /\ owed_hfee (snd e) = 0 /\ owed_bfee (snd e) = 0).
+  { intros [m x] He. cbn [snd]. pose proof (keys_get _ m x (g_keys _ (g2_g1 _ G)) He) as Hx.
+    destruct (settled_means ops m Hv) as (y & Hy & _ & _ & _ & _ & _ & _ & O); [exists x; split; [exact Hx|rewrite (Hall m x Hx); lia]|].
+    rewrite Hx in Hy. inv Hy. exact O. }
+  unfold tot in *. rewrite C1, C2, C3.
+  rewrite (zsum_map_zero (fun e : Z * mstate => owed_pool (snd e))) by (intros e He; apply (K e He)).
+  rewrite (zsum_map_zero (fun e : Z * mstate => owed_hfee (snd e))) by (intros e He; apply (K e He)).
+  rewrite (zsum_map_zero (fun e : Z * mstate => owed_bfee (snd e))) by (intros e He; apply (K e He)).
+  repeat split; reflexivity.
+Qed.
+
+(* C05: the two progress bounds in full *)
+Theorem bets_done_within ops1 ops2 m : Forall user_op ops1 -> Forall user_op ops2 ->
+  In m (c_mqueue (run s0 ops1)) -> 0 < pr_bet_batch P ->
+  bets_measure (run s0 ops1) m / pr_bet_batch P + 1 <= count_end ops2 ->
+  exists x, get_ms (run s0 (ops1 ++ ops2)) m = Some x /\ ms_pending x = [] /\ (forall b, In b (ms_bets x) -> b_status b = BS_SETTLED) /\
+    ~ In m (c_mqueue (run s0 (ops1 ++ ops2))) /\ (bk_status (ms_book x) = BK_RESOLVED \/ bk_status (ms_book x) = BK_SETTLED).
+Proof.
+  intros H1 H2 Hm Hk Hc. apply resolved_means; [apply Forall_app; split; assumption|].
+  eapply bets_settled_within; eassumption.
+Qed.
+
+Theorem book_done_within ops1 ops2 m : Forall user_op ops1 -> Forall user_op ops2 ->
+  In m (c_bqueue (run s0 ops1)) -> 0 < pr_ob_batch P ->
+  parts_measure (run s0 ops1) m / pr_ob_batch P + 1 <= count_end ops2 ->
+  exists x, get_ms (run s0 (ops1 ++ ops2)) m = Some x /\ bk_status (ms_book x) = BK_SETTLED /\
+    (forall p, In p (bk_parts (ms_book x)) -> p_settled p = true) /\
+    ms_pending x = [] /\ (forall b, In b (ms_bets x) -> b_status b = BS_SETTLED) /\
+    ~ In m (c_mqueue (run s0 (ops1 ++ ops2))) /\ ~ In m (c_bqueue (run s0 (ops1 ++ ops2))) /\
+    owed_pool x = 0 /\ owed_hfee x = 0 /\ owed_bfee x = 0.
+Proof.
+  intros H1 H2 Hm Hk Hc. apply settled_means; [apply Forall_app; split; assumption|].
+  eapply parts_settled_within; eassumption.
+Qed.
+End Final.
